@@ -33,7 +33,7 @@ type c20Job struct {
 type c20Plan struct {
 	Jobs       []c20Job `json:"jobs"`
 	Goroutines int      `json:"goroutines"`
-	Perm       []int    `json:"permutation"`   // order in which the concurrent child starts the jobs
+	Perm       []int    `json:"permutation"`    // order in which the concurrent child starts the jobs
 	Prefix     []int    `json:"history_prefix"` // jobs the history child runs first (results discarded)
 }
 
@@ -49,7 +49,7 @@ func c20Fresh(kind string) any {
 
 type c20Encoders struct {
 	bin, xml, json, text ttlv.Encoder
-	reuse               bool
+	reuse                bool
 }
 
 func (e *c20Encoders) encode(which string, v any) []byte {
